@@ -40,7 +40,7 @@ func (cl *Clause) internal() bool {
 	if strings.HasPrefix(cl.Label, "local-") {
 		return true
 	}
-	for _, k := range []string{"ncalls(", "callarg[", "callret[", "pendingErr(", "pendingFailed(", "deferActive(", "deferVal["} {
+	for _, k := range []string{"ncalls(", "callarg[", "callret[", "firstret[", "pendingErr(", "pendingFailed(", "deferActive(", "deferVal[", "deferObj["} {
 		if strings.Contains(cl.Text, k) {
 			return true
 		}
@@ -68,6 +68,7 @@ type Contract struct {
 	NoInline    bool
 	Inline      bool
 	NoSchematic bool
+	NoE6Failure bool
 	NoSafety    bool
 	File        string
 	Lift        string
@@ -156,6 +157,13 @@ func (db *ContractDB) parseFile(prog *ssa.Program, pkg *packages.Package, f *ast
 	for _, cg := range f.Comments {
 		for _, c := range cg.List {
 			line := c.Text
+			if strings.HasPrefix(line, "// @ ") {
+				w, _, _ := strings.Cut(strings.TrimSpace(line[4:]), " ")
+				switch w {
+				case "func", "requires", "ensures", "loop", "props", "modifies", "lemma", "atcall", "inline", "ghost", "pure", "trusted", "mode":
+					db.errorf("%s:%d: contract directive was rewritten by gofmt (\"// @ %s\"): keep //@ blocks out of doc comments", short, db.fset.Position(c.Pos()).Line, w)
+				}
+			}
 			if !strings.HasPrefix(line, "//@") {
 				continue
 			}
@@ -317,6 +325,9 @@ func (db *ContractDB) parseFile(prog *ssa.Program, pkg *packages.Package, f *ast
 			case "schematic":
 				if cur != nil && rest == "off" {
 					cur.NoSchematic = true
+				}
+				if cur != nil && strings.HasPrefix(rest, "noE6failure") {
+					cur.NoE6Failure = true
 				}
 			case "safety":
 				if cur != nil && rest == "off" {
